@@ -332,8 +332,12 @@ def gen_theory(rng, profile='c16'):
             tw.dvs = [p for p in ax.dvs if p[0] in tw.vars and p[1] in tw.vars]
             ax.twin = tw
             th.features.add('twin_blocks')
+        if shape == 'nested' and not ax.dvs and len(hyps) < 2:
+            shape = ax.shape = 'block'      # `${ ${ ... $} $}` with an empty outer block is not a shape anybody writes
         if shape == 'nested':
             th.features.add('nested_blocks')
+            if ax.dvs:
+                th.features.add('outer_block_with_only_dv')
         for j, (_, h) in enumerate(hyps):
             if not isinstance(h, str) and t_text(h) not in seen and rng.random() < 0.75:
                 seen.add(t_text(h))
